@@ -1525,6 +1525,9 @@ impl<'p> World<'p> {
         }
         if wk == WrapKind::Pke && f == 1 && data.len() >= 81 && data[80] == 0 {
             self.stats.bump("probe:rsa-kem-ciphertext-leading-zero");
+            if draws.iter().any(|d| d.bytes.len() == 512 && crate::fixtures::RSA4096_C_TWO_ZERO_BYTES_JSON.contains(&hex::encode(&d.bytes))) {
+                self.stats.bump("probe:rsa-kem-ciphertext-two-leading-zero-bytes");
+            }
         }
         if wk == WrapKind::Pke && f == 1 && data.len() != want_len {
             self.stats.bump("probe:rsa-kem-short-blob");
